@@ -512,7 +512,9 @@ fn worker(build: &str, seed: u64, n_calls: u64, index: u64, of: u64, trace: bool
     std::hint::black_box(firstuse::warm_up_third_party());
     install_clock();
     let mut st = WStats::default();
-    let grid_end = calls::GRID_BASE + calls::grid_len(&funcs);
+    // (runs with a reduced budget — set-up warm-up, determinism runs — take a prefix of the grid)
+    let grid_n = if n_calls < 50_000 { calls::grid_len(&funcs).min(n_calls) } else { calls::grid_len(&funcs) };
+    let grid_end = calls::GRID_BASE + grid_n;
     let mut idx = if index < n_calls { index } else { calls::next_index(index, of, index, n_calls) };
     while idx < from {
         idx = calls::next_index(idx, of, index, n_calls);
